@@ -25,10 +25,10 @@ U = TStruct("u_t", (TField("w", INTS["uint16"]), TField("raw", TArr(INTS["uint8"
 S1 = TStruct("S1", (
     TField("a", INTS["uint8"]), TField("arr", TArr(INTS["uint16"], 2)), TField("n", N), TField("ns", TArr(N, 2)), TField("c", TArr(CHAR, 2)),
     TField("w", TArr(WCHAR, 2)), TField("b1", INTS["uint16"], 4), TField("b2", INTS["uint16"], 12), TField("u", U), TField("m", TArr(TArr(INTS["uint8"], 2), 2)),
-    TField("p", TPtr(INTS["uint8"])), TField(None, AN),
+    TField("p", TPtr(INTS["uint8"])), TField(None, AN), TField("g", TArr(TArr(N, 2), 2)), TField("c3", TArr(TArr(TArr(INTS["uint8"], 2), 2), 2)),
 ))
-S2 = TStruct("S2", (TField("n", INTS["uint8"]), TField("d", TArr(INTS["uint16"], "n")), TField("t", INTS["uint8"])))
-TEXT = render(S1) + "\n" + "struct S2 { uint8 n; uint16 d[n]; uint8 t; };"
+S2 = TStruct("S2", (TField("n", INTS["uint8"]), TField("d", TArr(INTS["uint16"], "n * NK - n")), TField("t", INTS["uint8"])))
+TEXT = "#define NK 2\n" + render(S1) + "\n" + "struct S2 { uint8 n; uint16 d[n * NK - n]; uint8 t; };"
 TYPES = {"S1": S1, "S2": S2}
 ENDIAN = ["<", ">"]
 
@@ -48,12 +48,14 @@ class World:
             cs.load(TEXT, compiled=compiled)
         self.endian = list(ENDIAN)
         self.flipped = [False, False]
+        self.nk = [2, 2]
         self.extra = [set(), set()]
         self.inst = []  # (ci, type name, impl object, model value)
+        self.created_nk = {}  # id(impl object) -> value of the constant NK when the instance was created
         self.compiled = compiled
 
     def cfg(self, ci):
-        return Cfg(endian=self.endian[ci])
+        return Cfg(endian=self.endian[ci], consts={"NK": self.nk[ci]})
 
 
 def zero_value(tname, cfg):
@@ -67,7 +69,7 @@ def data_for(tname, k):
     if tname == "S1":
         n = sizeof(S1, Cfg())
         return bytes(((i * 7 + 3 + k * 11) % 250) + 1 for i in range(n))
-    return bytes([2]) + bytes([0x10 + k, 0x20, 0x30 + k, 0x40]) + bytes([0x99 - k])
+    return bytes([2]) + bytes([0x10 + k, 0x20, 0x30 + k, 0x40, 0x50 + k, 0x60, 0x70, 0x71 + k]) + bytes([0x99 - k, 0x98])
 
 
 # ---------------------------------------------------------------------------------------------- operations
@@ -93,6 +95,7 @@ def op_parse(ci, tname, k):
         data = data_for(tname, k)
         obj = getattr(w.cs[ci], tname)(data)
         v, _ = decode(TYPES[tname], data, 0, w.cfg(ci))
+        w.created_nk[id(obj)] = w.nk[ci]
         w.inst.append((ci, tname, obj, v))
     return (f"parse(cs{ci},{tname},{k})", run, lambda w: len(w.inst) < 3)
 
@@ -101,7 +104,7 @@ def op_fail_parse(ci, tname):
     def run(w: World):
         data = data_for(tname, 0)
         try:
-            getattr(w.cs[ci], tname)(data[: len(data) - 2])
+            getattr(w.cs[ci], tname)(data[: 3 if tname == "S2" else len(data) - 2])
         except EOFError:
             return
         raise AssertionError("truncated parse did not raise EOFError")
@@ -142,6 +145,21 @@ def op_mut_anon(j):
 
 def op_mut_anon_arr(j):
     return _mut(j, "x.ay[1]=0x4455", lambda o: o.ay.__setitem__(1, 0x4455), lambda v: v["ay"].__setitem__(1, 0x4455))
+
+
+def op_mut_grid(j):
+    return _mut(j, "x.g[0][1].a=0x66", lambda o: setattr(o.g[0][1], "a", 0x66), lambda v: v["g"][0][1].__setitem__("a", 0x66))
+
+
+def op_mut_cube(j):
+    return _mut(j, "x.c3[1][0][1]=5", lambda o: o.c3[1][0].__setitem__(1, 5), lambda v: v["c3"][1][0].__setitem__(1, 5))
+
+
+def op_redefine_const(ci):
+    def run(w: World):
+        w.cs[ci].load("#define NK 3")
+        w.nk[ci] = 3
+    return (f"redefine_NK(cs{ci})", run, lambda w: w.nk[ci] == 2)
 
 
 def op_mut_union(j):
@@ -197,8 +215,8 @@ def alphabet(tier):
     ops = [op_new_default(0, "S1"), op_new_default(1, "S1"), op_new_default(0, "S2"), op_new_kw(0), op_new_kw(1),
            op_parse(0, "S1", 0), op_parse(1, "S1", 1), op_parse(0, "S2", 0), op_fail_parse(0, "S1"), op_fail_parse(0, "S2")]
     for j in (0, 1):
-        ops += [op_mut_scalar(j), op_mut_arr(j), op_mut_nested(j), op_mut_arrstruct(j), op_mut_union(j), op_mut_2d(j), op_mut_dyn(j), op_mut_anon(j), op_mut_anon_arr(j)]
-    ops += [op_load_extra(0), op_flip(0), op_flip(1), op_add_type(0), op_add_type(1), op_load_alias_user(0), op_load_alias_user(1)]
+        ops += [op_mut_scalar(j), op_mut_arr(j), op_mut_nested(j), op_mut_arrstruct(j), op_mut_union(j), op_mut_2d(j), op_mut_dyn(j), op_mut_anon(j), op_mut_anon_arr(j), op_mut_grid(j), op_mut_cube(j)]
+    ops += [op_load_extra(0), op_flip(0), op_flip(1), op_add_type(0), op_add_type(1), op_load_alias_user(0), op_load_alias_user(1), op_redefine_const(0)]
     return ops
 
 
@@ -216,7 +234,7 @@ def check_invariant(w: World, hist, res: JobResult):
             bad.append(("instance:changed", f"instance #{idx} ({tn} of cs{ci}) is {got}, its own history gives {v}"))
             continue
         # dumps reflects exactly this instance's value under its cstruct's *current* endianness
-        cfg = w.cfg(ci)
+        cfg = Cfg(endian=w.endian[ci], consts={"NK": w.created_nk.get(id(obj), w.nk[ci])})  # the array length was fixed when the value was made
         try:
             out = obj.dumps()
             back, _ = decode(TYPES[tn], out + b"\x00" * 4, 0, cfg)
@@ -311,7 +329,7 @@ def explore(prefix_ops, depth, compiled, res: JobResult, ops):
 
 
 REDUCED = ["new_default(cs0,S1)", "new_kw(cs0)", "parse(cs0,S1,0)", "fail_parse(cs0,S1)", "x.arr[0]=0x1234(#0)", "x.n.b=0x0BB0(#0)", "x.ns[1].a=0x77(#0)",
-           "x.u.w=0x0102(#0)", "x.ay[1]=0x4455(#0)", "flip_endian(cs0)", "load_extra(cs0)", "x.arr[0]=0x1234(#1)"]
+           "x.u.w=0x0102(#0)", "x.ay[1]=0x4455(#0)", "flip_endian(cs0)", "load_extra(cs0)", "x.g[0][1].a=0x66(#0)", "redefine_NK(cs0)", "parse(cs0,S2,0)"]
 
 
 def jobs(tier):
